@@ -3,7 +3,7 @@
    are tied to by the correspondence check. *)
 From Coq Require Import List NArith ZArith.
 Import ListNotations.
-From PP Require Import Base Syntax Spec SpecWf PairsApi.
+From PP Require Import Base Syntax Spec SpecWf PairsApi Interp Gen GenProof SpecTags MachineCor.
 
 (* spans inside [k, len(input)], children ordered, non-overlapping and nested, every pair
    name a non-silent rule of the grammar; the final position is inside the input *)
@@ -35,7 +35,55 @@ Theorem C06_flatten_is_preorder : forall PN lo hi ps, chain PN lo hi ps ->
   map (fun x => (fst (fst x), snd (fst x))) (flatten ps) = starts (tokens ps).
 Proof. exact flatten_preorder. Qed.
 
+
+(* tags in the tree are tags written in the grammar (SpecTags.v) *)
+Theorem C06_tags_from_grammar : forall g f rule input k s' tree, parse g f rule input k = Ok s' tree ->
+  forall t, In t (tree_tags tree) -> In t (grammar_tags g).
+Proof. exact parse_tags. Qed.
+
+(* ---- the same for the two machines as modelled (Interp.v: the interpreter; Gen.v: the generated
+   code; each tied exactly to its execution mode on every run), by the refinement theorems
+   (MachineCor.v). Side conditions as in C01: `one_modifier g` (a silent rule is not $ or !),
+   `inl_ok g inl` (built-in rules emitted in place are plain silent rules). *)
+Theorem C06_interpreter_tree_wellformed : forall g, one_modifier g ->
+  forall f rule input k s ps, k <= length input ->
+  iparse g f rule input k = IOk true s ps ->
+  chain (PN g) (N.of_nat k) (i_pos s) ps /\ N.to_nat (i_pos s) <= length input.
+Proof. exact machine_C06_wellformed_interp. Qed.
+Theorem C06_interpreter_single_root : forall g, one_modifier g ->
+  forall f rule input k r s ps, lookup g rule = Some r -> r_silent r = false ->
+  iparse g f rule input k = IOk true s ps ->
+  exists kids tag, ps = [Pair rule (N.of_nat k) (i_pos s) kids tag].
+Proof. exact machine_C06_single_root_interp. Qed.
+Theorem C06_interpreter_tags : forall g, one_modifier g ->
+  forall f rule input k s ps, iparse g f rule input k = IOk true s ps ->
+  forall t, In t (tree_tags ps) -> In t (grammar_tags g).
+Proof. exact machine_C06_tags_interp. Qed.
+Theorem C06_generated_tree_wellformed : forall g inl, one_modifier g -> inl_ok g inl ->
+  forall f rule input k s ps, inlined inl rule = false -> k <= length input ->
+  gparse g inl f rule input k = GOk true s ps ->
+  chain (PN g) (N.of_nat k) (i_pos s) ps /\ N.to_nat (i_pos s) <= length input.
+Proof. exact machine_C06_wellformed_gen. Qed.
+Theorem C06_generated_single_root : forall g inl, one_modifier g -> inl_ok g inl ->
+  forall f rule input k r s ps, inlined inl rule = false ->
+  lookup g rule = Some r -> r_silent r = false ->
+  gparse g inl f rule input k = GOk true s ps ->
+  exists kids tag, ps = [Pair rule (N.of_nat k) (i_pos s) kids tag].
+Proof. exact machine_C06_single_root_gen. Qed.
+Theorem C06_generated_tags : forall g inl, one_modifier g -> inl_ok g inl ->
+  forall f rule input k s ps, inlined inl rule = false ->
+  gparse g inl f rule input k = GOk true s ps ->
+  forall t, In t (tree_tags ps) -> In t (grammar_tags g).
+Proof. exact machine_C06_tags_gen. Qed.
+
 Print Assumptions C06_tree_wellformed.
 Print Assumptions C06_single_root.
 Print Assumptions C06_tokens_balanced_sorted.
 Print Assumptions C06_flatten_is_preorder.
+Print Assumptions C06_interpreter_tree_wellformed.
+Print Assumptions C06_interpreter_single_root.
+Print Assumptions C06_interpreter_tags.
+Print Assumptions C06_generated_tree_wellformed.
+Print Assumptions C06_generated_single_root.
+Print Assumptions C06_generated_tags.
+Print Assumptions C06_tags_from_grammar.
